@@ -101,7 +101,10 @@ template <class It> std::vector<Id> drain(std::unique_ptr<It> it) {
 }
 
 // ---------------------------------------------------------------- all graph views agree with the model
-inline void checkGraph(vf::Ctx& c, PubGraph& g, const GModel& m, const std::string& w) {
+// rot == 0: every probe that is expected to raise is made; rot > 0 (random histories): those probes are thinned out in
+// rotation (raising is slow under the sanitizers); probes expected to return a value are always made.
+inline bool thin(unsigned rot, unsigned a, unsigned b, unsigned mod) { return rot != 0 && (a * 7 + b * 3 + rot) % mod != 0; }
+inline void checkGraph(vf::Ctx& c, PubGraph& g, const GModel& m, const std::string& w, unsigned rot = 0) {
   const bpp::GlobalGraph& cg = g;
   CHECK(g.isDirected() == m.directed, w << ": isDirected()=" << g.isDirected() << " model " << m.str());
   std::vector<Id> an = g.getAllNodes(), ae = g.getAllEdges();
@@ -154,6 +157,7 @@ inline void checkGraph(vf::Ctx& c, PubGraph& g, const GModel& m, const std::stri
     CHECK(MS(drain(cg.incomingEdgesIterator(n))) == MS(vie), w << ": const incomingEdgesIterator(" << n << ") differs from getIncomingEdges");
     for (Id n2 : m.nodes) {
       std::set<Id> ex = m.from(n, n2), any = uni(ex, m.from(n2, n));
+      if (any.empty() && thin(rot, n, n2, 6)) continue;
       Id got = 0;
       bool r = raises([&] { got = g.getEdge(n, n2); });
       CHECK(r ? ex.empty() : ex.count(got) > 0, w << ": getEdge(" << n << "," << n2 << ") " << (r ? std::string("raised") : "=" + std::to_string(got)) << " expected " << show(ex) << " in " << m.str());
@@ -186,6 +190,7 @@ inline void checkGraph(vf::Ctx& c, PubGraph& g, const GModel& m, const std::stri
   // absent operands of queries must raise
   Id an1 = m.absentFresh(), ae1 = m.absentEdge();
   std::vector<Id> absent{an1}; for (Id x : m.everNode) if (!m.nodes.count(x)) { absent.push_back(x); break; }
+  if (thin(rot, 0, 0, 3)) return;
   for (Id a : absent) {
     CHECK(raises([&] { g.getOutgoingNeighbors(a); }) && raises([&] { g.getIncomingNeighbors(a); }) && raises([&] { g.getNeighbors(a); }), w << ": neighbour query on absent node " << a << " did not raise");
     CHECK(raises([&] { g.getOutgoingEdges(a); }) && raises([&] { g.getIncomingEdges(a); }) && raises([&] { g.getEdges(a); }), w << ": edge query on absent node " << a << " did not raise");
